@@ -21,6 +21,31 @@ class Disp(object):
         self.log = None
         for i, d in enumerate(self.decs):
             self._wrap(i, d)
+        # every instance attribute as it is right after import: reset() puts them back, so that leftovers of multi-part
+        # decoders (Denon, Blaupunkt, ...) do not leak from one recorded sequence into the next
+        self.inst_states = [self._snapshot(d) for d in self.decs]
+
+    @staticmethod
+    def _snapshot(d):
+        import copy
+        snap = {}
+        for k, v in d.__dict__.items():
+            if isinstance(v, (list, dict, set)):
+                try:
+                    snap[k] = ('copy', copy.copy(v))
+                    continue
+                except Exception:  # noqa
+                    pass
+            snap[k] = ('same', v)
+        return snap
+
+    def _restore(self, d, snap):
+        import copy
+        for k in list(d.__dict__):
+            if k not in snap:
+                del d.__dict__[k]
+        for k, (how, v) in snap.items():
+            d.__dict__[k] = copy.copy(v) if how == 'copy' else v
 
     def _wrap(self, i, d):
         orig = d.__class__.decode
@@ -57,6 +82,8 @@ class Disp(object):
         m._last_code = None
         m._last_decoder = None
         m._decode_callback = None
+        for d, snap in zip(self.decs, self.inst_states):
+            self._restore(d, snap)
         for d, (en, tol, ftol) in zip(self.decs, self.defaults):
             d._enabled, d._tolerance, d._frequency_tolerance = en, tol, ftol
             d._last_code = None
@@ -88,11 +115,28 @@ class Disp(object):
         except Exception:  # noqa
             return False
 
+    def saved_matches(self, data):
+        """(pid, code id) of the first stored code of each decoder that equals the input (`for code in decoder: if code == data`)."""
+        out = []
+        for i, d in enumerate(self.decs):
+            if not d._saved_codes:
+                continue
+            for code in list(d._saved_codes):
+                try:
+                    eq = bool(code == data)
+                except Exception:  # noqa
+                    eq = False
+                if eq:
+                    out.append((i, self.code_id(code)))
+                    break
+        return out
+
     def call(self, data, freq):
         """One _decode call.  Returns dict(cfg, freq, hm, pre, log, result, post)."""
         pre = self.state()
         hm = self.held_match(list(data))
         cfg = self.cfg()
+        saved = self.saved_matches(list(data))
         self.log = []
         try:
             r = self.mod._decode(list(data), freq)
@@ -107,7 +151,7 @@ class Disp(object):
         self.log = None
         post = self.state()
         vlib.drain_workers()
-        return dict(cfg=cfg, freq=freq, hm=hm, pre=pre, log=log, result=res, post=post, obj=r)
+        return dict(cfg=cfg, freq=freq, hm=hm, pre=pre, log=log, result=res, post=post, obj=r, saved=saved)
 
     def release(self):
         """Deliver the release of the held key: timer not running, reset callbacks run."""
@@ -147,7 +191,8 @@ def coq_case(rec):
         'None' if lc is None else '(Some {| c_pid := %d%%nat; c_key := %s |})' % (lc[0], vlib.z(lc[1])),
         'None' if ld is None else '(Some %d%%nat)' % ld)
     log = '[' + '; '.join('(%d%%nat, %s)' % (p, coq_outcome(o)) for p, o in rec['log']) + ']'
-    return '(%s, %s, %s, %s, %s)' % (cfg, vlib.z(rec['freq']), 'true' if rec['hm'] else 'false', st, log)
+    sv = '[' + '; '.join('(%d%%nat, {| c_pid := %d%%nat; c_key := %s |})' % (p, c[0], vlib.z(c[1])) for p, c in rec.get('saved', [])) + ']'
+    return '(%s, %s, %s, %s, %s, %s)' % (cfg, vlib.z(rec['freq']), 'true' if rec['hm'] else 'false', st, log, sv)
 
 
 PY_CODES = {'IndexError': 21, 'ValueError': 22, 'TypeError': 23, 'AttributeError': 24, 'KeyError': 25,
@@ -174,4 +219,4 @@ def expected(rec):
 
 
 IMPORTS = 'Require Import PyIR.Base.Result PyIR.Ctl.Dispatcher PyIR.Ctl.DispatchRun.'
-CTYPE = '(list pconf * Z * bool * dstate * LOG)'
+CTYPE = '(list pconf * Z * bool * dstate * LOG * list (nat * code))'
